@@ -348,6 +348,16 @@ impl<H: Host> ZXController<H> {
         }
     }
 
+    /// Sets value of the port 0x7FFD as a part of the machine state (e.g. from snapshot).
+    /// In contrast to the port write performed by CPU ([Self::write_7ffd]), paging lock of
+    /// the previous state is not taken into account, lock bit of the `val` is used instead
+    pub(crate) fn restore_7ffd(&mut self, val: u8) {
+        if self.machine == ZXMachine::Sinclair128K {
+            self.paging_enabled = true;
+        }
+        self.write_7ffd(val);
+    }
+
     pub fn read_7ffd(&self) -> u8 {
         self.current_port_7ffd
     }
